@@ -11,7 +11,7 @@ import (
 )
 
 func init() {
-	register("C18", "real connections through the in-memory dialer over the configuration cross product (negotiation on/off x password none/plain/with space x nick/ident/name variants x server with/without port, IPv4, bracketed IPv6 with port x SSL flag for the dial address) - first lines of the wire transcript and the address seen by the dialer judged by Spec.Register; PING tokens (empty-but-present, spaces, colons, 400 bytes) interleaved with other traffic must be answered by PONG with the same token; PingFreq 0 vs 40ms; non-trivial = every connection; distinct by configuration / token", c18)
+	register("C18", "real connections through the in-memory dialer over the configuration cross product (negotiation on/off x password none/plain/with space x nick/ident/name variants x server with/without port, IPv4, bracketed IPv6 with port x SSL flag for the dial address) - first lines of the wire transcript and the address seen by the dialer judged by Spec.Register; PING tokens (empty-but-present, spaces, colons, 400 bytes) interleaved with other traffic must be answered by PONG with the same token; PingFreq 0 vs 40ms; for every other configuration the link is dropped, Nick() and Privmsg() are called while it is down and the same client reconnects: the new transcript is judged by Spec.Register again; non-trivial = every connection; distinct by configuration / token", c18)
 }
 
 func c18(c *Ctx) {
@@ -104,6 +104,31 @@ func c18(c *Ctx) {
 					sess.srv.SendLine("PING")
 					if !sess.sync(5 * time.Second) {
 						c.SpecFail("spec", "PING without token, then PING :sync", "", "connection stopped answering", nil)
+					}
+					// the link drops, the application keeps calling command methods while it is down, then reconnects the same
+					// client: the new connection starts with the registration lines, once each, and nothing else before them
+					if (n/2)%2 == 0 {
+						sess.srv.EOF()
+						waitFor(func() bool { return !sess.conn.Connected() }, 5*time.Second)
+						time.Sleep(time.Millisecond)
+						sess.conn.Nick("elsewhere")
+						sess.conn.Privmsg("#c", "queued while the link was down")
+						rdesc := desc + ", link dropped, Nick() and Privmsg() called while down, Connect again"
+						if err := sess.conn.Connect(); err != nil {
+							c.SpecFail("spec", rdesc, "", "reconnect failed: "+err.Error(), rp)
+							continue
+						}
+						select {
+						case srv2 := <-sess.conns:
+							srv2.WaitLines(want, 5*time.Second)
+							time.Sleep(5 * time.Millisecond)
+							cases = append(cases, Case{Desc: rdesc,
+								Spec: []string{fmt.Sprintf("spec18reg %s %s %s %s %s %s", b(capNeg), drv.H(pass), drv.H(nick), drv.H(ident), drv.H(name), drv.L(srv2.Lines()))},
+								Tag:  "reconnect", Key: rdesc, Replay: map[string]interface{}{"op": "reconnect-after-sends-while-down", "config": rp, "transcript": srv2.Lines()}})
+							c.Res.Traces++
+						case <-time.After(3 * time.Second):
+							c.Res.Inconclusive++
+						}
 					}
 					sess.close()
 				}
